@@ -103,11 +103,12 @@ REDUCE = {"sum": "SUM", "mean": "MEAN", "std": "STD", "min": "MIN", "max": "MAX"
 
 
 class SymEval:
-    def __init__(self, repo, opaque=(), inline_depth=4, assume_masks_nonempty=True, opaque_tests=None):
+    def __init__(self, repo, opaque=(), inline_depth=4, assume_masks_nonempty=True, opaque_tests=None, self_calls_as_terms=False):
         self.repo = repo
         self.assume = {}                     # "call:<callee>" / "text:<normalised test>" -> bool (stated per rule)
         self.opaque_tests = opaque_tests     # None: explore both arms; True/False: shape-like tests the term domain cannot see take this value
         self.opaque = set(opaque)
+        self.self_calls_as_terms = self_calls_as_terms   # unresolved `self.m(...)` (extension-type methods) become SELF_m(args) terms
         self.inline_depth = inline_depth
         self.issues = []          # (where, text)
         self.notes = []
@@ -961,6 +962,8 @@ class Env:
         if isinstance(f, ast.Name) and f.id not in self.vars:
             if f.id in ("float", "int") and c.args:
                 x = A(0)
+                if isinstance(x, bool):
+                    return sp.Integer(int(x))
                 if f.id == "int" and _is_expr(x) and not _as_expr(x).is_number:
                     return sp.Function("INT")(_as_expr(x))
                 if f.id == "int" and _is_expr(x):
@@ -1158,6 +1161,23 @@ class Env:
             return sp.Function(f.id)(*[_as_expr(x) for x in A() if _is_expr(x)])
         if isinstance(f, ast.Name) and f.id in self.vars and _is_expr(self.vars[f.id]) and isinstance(self.vars[f.id], sp.Symbol):
             return sp.Function(str(self.vars[f.id]))(*[_as_expr(x) for x in A() if _is_expr(x)])
+        if isinstance(f, ast.Attribute) and getattr(self.se, "self_calls_as_terms", False) and (
+                (isinstance(f.value, ast.Name) and f.value.id == "self") or
+                (isinstance(f.value, ast.Call) and isinstance(f.value.func, ast.Name) and f.value.func.id == "super")):
+            def _oa(x):
+                if x is None:
+                    return sp.Symbol("NONE")
+                if isinstance(x, (list, tuple)) and not _is_matrix(x):
+                    return sp.Function("SEQ")(*[_oa(e) for e in x])
+                if isinstance(x, Opaque):
+                    return sp.Symbol("OPAQUE[%s]" % x.what)
+                if isinstance(x, str):
+                    return sp.Symbol("STR[%s]" % x)
+                return _opaque_arg(x)
+            try:
+                return sp.Function("SELF_" + f.attr)(*([_oa(x) for x in A()] + [sp.Function("KW_" + k.arg)(_oa(self.ev(k.value))) for k in c.keywords if k.arg]))
+            except Exception:
+                return Opaque("%s(...)" % norm(f))
         if isinstance(f, ast.Attribute):
             return Opaque("%s(...)" % norm(f))
         raise Unsupported("symx: call `%s` at %s" % (norm(c)[:60], self.where(c)))
